@@ -11,8 +11,26 @@
 using nd::Rng;
 using namespace hs;
 
-static const char* kFam[] = {"cluster-groups", "dense-cluster", "forest", "corpus"};
-enum { F_GROUPS, F_CLUSTER, F_FOREST, F_CORPUS };
+static const char* kFam[] = {"cluster-groups", "dense-cluster", "forest", "corpus", "tactile"};
+enum { F_GROUPS, F_CLUSTER, F_FOREST, F_CORPUS, F_TACTILE };
+
+// a pad with a tactile sensor of >= 1000 taxels (builtin plate mesh) touched by a few small bodies: the sensor stage
+// dispatches taxel batches to the pool (engine_sensor.c: tactileTask)
+static std::string tactile_xml(Rng& r, int* ntaxel) {
+  auto f = [](double v) { char b[40]; snprintf(b, sizeof b, "%.4g", v); return std::string(b); };
+  int rx = r.range(32, 40), ry = r.range(32, 40);
+  static const char* solv[] = {"PGS", "CG", "Newton"};
+  std::string x = "<mujoco model=\"tactile\"><compiler usethread=\"false\"/><option timestep=\"0.004\" solver=\"" + std::string(solv[r.below(3)]) + "\" cone=\"" + (r.chance(0.5) ? "elliptic" : "pyramidal") + "\"/>"
+                  "<size memory=\"32M\"/><asset><mesh name=\"pad\" builtin=\"plate\" params=\"" + std::to_string(rx) + " " + std::to_string(ry) + "\" scale=\"0.3 0.3 0.05\"/></asset><worldbody>"
+                  "<geom name=\"floor\" type=\"plane\" size=\"3 3 .1\"/><body name=\"finger\" pos=\"0 0 " + f(r.uniform(0.04, 0.07)) + "\">" + (r.chance(0.7) ? "<freejoint/>" : "<joint type=\"slide\" axis=\"0 0 1\"/>") +
+                  "<geom name=\"fbox\" type=\"box\" size=\"0.3 0.3 0.05\" mass=\"0.2\"/><geom name=\"pad\" type=\"mesh\" mesh=\"pad\" mass=\"0\" contype=\"0\" conaffinity=\"0\"/></body>";
+  int nb = r.range(1, 5);
+  for (int i = 0; i < nb; i++)
+    x += "<body name=\"p" + std::to_string(i) + "\" pos=\"" + f(r.uniform(-0.2, 0.2)) + " " + f(r.uniform(-0.2, 0.2)) + " " + f(r.uniform(0.13, 0.16)) + "\"><freejoint/><geom type=\"" + (i % 2 ? "sphere\" size=\"0.04" : "box\" size=\"0.04 0.03 0.04") + "\"/></body>";
+  x += "</worldbody><sensor><tactile geom=\"pad\" mesh=\"pad\"/></sensor></mujoco>";
+  *ntaxel = 0;
+  return x;
+}
 
 // mju_error: on the main thread it unwinds to the guard (nd::on_error); on a pool worker there is nothing to
 // unwind to, and with the generous memory of this driver an error inside a task is itself a difference from
@@ -40,7 +58,7 @@ int main(int argc, char** argv) {
     Rng r(s);
     nd::g_seed = s; nd::g_blob.clear();
     // ---- model: families chosen so that the step has several constraint islands and/or >16 candidate pairs
-    int fam = r.below(100); fam = fam < 35 ? F_GROUPS : fam < 50 ? F_CLUSTER : fam < 85 ? F_FOREST : F_CORPUS;
+    int fam = r.below(100); fam = fam < 30 ? F_GROUPS : fam < 43 ? F_CLUSTER : fam < 75 ? F_FOREST : fam < 88 ? F_CORPUS : F_TACTILE;
     if (sup.corpus.empty() && fam == F_CORPUS) fam = F_FOREST;
     mg::GenOpts go; go.memory = "32M"; go.allow_rk4 = true;
     std::string mdesc; mjModel* m = nullptr; std::string err;
@@ -50,6 +68,12 @@ int main(int argc, char** argv) {
       vsim::begin(c0);
       sup.corpus_share = 1.0; m = sup.get(r, go, &mdesc, nullptr, 120);
       vsim::end();
+    }
+    else if (fam == F_TACTILE) {
+      int nt = 0; std::string x = tactile_xml(r, &nt);
+      nd::g_blob = x + "\n"; mdesc = "tactile-pad";
+      m = mg::compile(x, &err);
+      if (m && m->nmesh) mdesc += "(" + std::to_string(m->mesh_vertnum[0]) + " taxels)";
     }
     else {
       sup.corpus_share = 0.0;
@@ -99,9 +123,11 @@ int main(int argc, char** argv) {
       if (resize_mid && oi == ops.size() / 2) mju_threadpool(P, nworker2);
       StackGuard gp(P);
       bool es = apply(m, S, o);
+      // the pool-less twin goes first: if the call raises mju_error there (numerical blow-up, e.g. a rank-deficient Hessian), the
+      // history ends; with a pool the same error would be raised on a worker thread, from which nothing can unwind
+      if (es) { sd::probe("history_ended_by_mju_error_in_poolless_twin"); ended = true; break; }
       bool ep = apply(m, P, o);
-      if (es != ep) sd::violation("error-differs", "%s raised mju_error %s only: %s", o.str().c_str(), ep ? "with the pool" : "without the pool", nd::g_lasterr);
-      if (es) { sd::probe("mju_error_in_both_twins"); ended = true; break; }
+      if (ep) sd::violation("error-differs", "%s raised mju_error with the pool only: %s", o.str().c_str(), nd::g_lasterr);
       if (!is_compute(o.kind)) continue;
       if (!gp.ok()) sd::violation("stack-not-restored", "%s with a pool returned with pstack/pbase %zu/%zu, entered with %zu/%zu", o.str().c_str(), (size_t)P->pstack, (size_t)P->pbase, gp.ps, gp.pb);
       if (P->threadlock) sd::violation("threadlock", "mjData still thread-locked after %s", o.str().c_str());
@@ -122,6 +148,10 @@ int main(int argc, char** argv) {
       if (P->nisland >= 4) sd::probe("compared_calls_with_4+_islands");
       if (P->ncon >= 17) sd::probe("compared_calls_with_17+_contacts");
       if (P->nefc) sd::probe("compared_calls_with_constraints");
+      if (fam == F_TACTILE && m->nmesh && m->mesh_vertnum[0] >= 1000) {
+        bool touched = false; for (int i = 0; i < m->nsensordata; i++) if (P->sensordata[i] != 0) { touched = true; break; }
+        if (touched) sd::probe("compared_calls_with_parallel_tactile_sensor");
+      }
     }
     sd::probe("compared_calls", ncompared);
     if (r.chance(0.5)) { mju_threadpool(P, 0); } else { mu::dispose(P); P = nullptr; sd::probe("pool_destroyed_by_deleteData"); }
